@@ -51,6 +51,15 @@ func arith(o *drv.Out, n int) {
 	o.Case("arith")
 	r := o.Rng
 	big64 := func(v uint64) *big.Int { return new(big.Int).SetUint64(v) }
+	// the witnesses named in Props/C20.lean, on the real functions
+	for _, t := range [][3]uint64{{0, 1000, 5}, {0, 7, 0}, {1000, 1000, 100}} {
+		res, _, _ := safeDY(t[0], t[1], t[2])
+		o.Op(fmt.Sprintf("dy %d %d %d", t[0], t[1], t[2]), res)
+	}
+	o.Op("muldiv 18446744073709551615 4 2", fmt.Sprint(lib.SafeMulDiv(18446744073709551615, 4, 2)))
+	if v, err := fsm.VerifLiquidityDepositPoints(100, 100, 100, 100); err == nil {
+		o.Op("ldp 100 100 100 100", fmt.Sprint(v))
+	}
 	for i := 0; i < n; i++ {
 		switch k := r.Intn(10); {
 		case k < 4:
